@@ -46,7 +46,7 @@ def one(path):
 
 def main():
     global PROPS
-    paths = [a for a in sys.argv[1:] if not a.startswith("--")]
+    paths = [a for a in sys.argv[1:] if not a.startswith("-")]
     for a in sys.argv[1:]:
         if a.startswith("--props="):
             PROPS = a.split("=", 1)[1].split(",")
@@ -66,8 +66,12 @@ def main():
         if neutral:
             status = "silent" if not hits else "FALSE ALARM"
         else:
-            status = "detected" if target in hits else ("detected elsewhere " + ",".join(sorted(hits)) if hits else "MISSED")
-        if status in ("FALSE ALARM", "MISSED"):
+            real = {p_: l_ for p_, l_ in hits.items() if not all(x.startswith(("ANALYSIS-ERROR", "CRASH")) for x in l_)}
+            if hits and not real:
+                status = "ONLY-ANALYSIS-ERROR"
+            else:
+                status = "detected" if target in real else ("detected elsewhere " + ",".join(sorted(real)) if real else "MISSED")
+        if status in ("FALSE ALARM", "MISSED", "ONLY-ANALYSIS-ERROR"):
             bad += 1
         print("%-22s %s %s" % (name, status, "" if neutral and not hits else sorted(hits)))
         if neutral or "-v" in sys.argv:
